@@ -443,6 +443,43 @@ def replay(chk, obj):
     return 0
 
 
+def _parses_single(pp, t):
+    try:
+        return isinstance(pp.parse(t), pp.ProFormaAnnotation)
+    except Exception:  # noqa
+        return False
+
+
+FRESH_SCRIPT = r'''
+import json, sys
+sys.path.insert(0, %r)
+import peptacular as pt
+from peptacular.sequence import sequence_funcs as sfm
+from harness import annot
+from harness.props.c20 import show_dict
+out = []
+for st in json.load(sys.stdin):
+    out.append([pt.strip_mods(st), show_dict(pt.get_mods(st)), pt.add_mods(pt.strip_mods(st), pt.get_mods(st)),
+                annot.dump(sfm.sequence_to_annotation(st))])
+print(json.dumps(out))
+'''
+
+
+def _fresh_answers(sample):
+    """the same queries in a fresh interpreter (same peptacular: PYTHONPATH is inherited)"""
+    import json
+    import subprocess
+    import sys
+    try:
+        p = subprocess.run([sys.executable, '-W', 'ignore', '-c', FRESH_SCRIPT % core.VERIF], input=json.dumps(sample),
+                           capture_output=True, text=True, timeout=300, cwd=core.VERIF)
+        if p.returncode != 0:
+            return None
+        return json.loads(p.stdout.strip().split('\n')[-1])
+    except Exception:  # noqa
+        return None
+
+
 def run(chk):
     pt, pp, dc = _pt()
     tier = chk.tier
@@ -895,6 +932,145 @@ def run(chk):
         return None
 
     chk.oracle('strip', osel, o_strip, nontrivial_fn=nontriv, key_fn=lambda d: d)
+
+    # ------------------------------------------------------------------ call SEQUENCES on one string: no state may leak between calls
+    # clean-state references come from the parser directly (never through the string wrappers) and, for a sample, from a fresh
+    # subprocess; then mutating and querying wrapper calls are interleaved on the same string and every answer is re-checked
+    from peptacular.sequence import sequence_funcs as sfm
+
+    def clean_ref(st):
+        a = pp.parse(st)
+        return {'seq': a._sequence, 'dict': show_dict(a.mod_dict()), 'text': a.serialize(), 'dump': annot.dump(a),
+                'condensed': a.copy().condense_static_mods().serialize() if not a._intervals else None,
+                'reversed': a.copy().reverse().serialize(), 'split': [x.serialize() for x in a.copy().split()]}
+
+    EXTRA = [{2: 'Oxidation'}, {0: [15.995, 'Phospho']}, {'nterm': 'Formyl'}, {'cterm': dc.Mod('Methyl', 2)}, {'labile': 'Glycan:Hex'},
+             {'unknown': [dc.Mod(1.5, 2)]}, {'charge': 3}, {'charge': 2, 'charge_adducts': '+2Na+'}, {'isotope': '13C'},
+             {'static': '[+57.02]@C'}, {'intervals': (0, 1, False, 'Phospho')}, {1: 'Acetyl', 'nterm': dc.Mod('Acetyl', 1)},
+             {0: [dc.Mod('Oxidation', 1)], 'cterm': ['Amide']}]
+
+    def expected_add(st, d, app, plus):
+        a = pp.parse(st)                       # fresh object straight from the parser
+        d = _copy.deepcopy(d)
+        for k in d:
+            if k == 'charge':
+                continue
+            d[k] = ic.fix_intervals_input(d[k]) if k == 'intervals' else ic.fix_list_of_mods(d[k])
+        a.add_mod_dict(d, append=app)
+        return a.serialize(include_plus=plus)
+
+    def o_sequence(c):
+        st, seed = c
+        r = core.random.Random(seed)
+        ref = clean_ref(st)
+        n = len(ref['seq'])
+        calls = []
+
+        def bad(what, got, want):
+            return 'call sequence on ' + repr(st) + ': ' + ' ; '.join(calls) + f' -> {what}: got {got!r}, clean state gives {want!r}'
+
+        def queries():
+            calls.append('strip_mods(s)')
+            if pt.strip_mods(st) != ref['seq']:
+                return bad('strip_mods', pt.strip_mods(st), ref['seq'])
+            calls[-1] = 'get_mods(s)'
+            g = pt.get_mods(st)
+            if show_dict(g) != ref['dict']:
+                return bad('get_mods', show_dict(g), ref['dict'])
+            mutate_container(g)
+            calls[-1] = 'get_mods(s) [returned dict mutated]; get_mods(s)'
+            if show_dict(pt.get_mods(st)) != ref['dict']:
+                return bad('get_mods after mutating the dict it returned', show_dict(pt.get_mods(st)), ref['dict'])
+            calls[-1] = 'pop_mods(s)'
+            ps, pd = pt.pop_mods(st)
+            if ps != ref['seq'] or show_dict(pd) != ref['dict']:
+                return bad('pop_mods', (ps, show_dict(pd)), (ref['seq'], ref['dict']))
+            mutate_container(pd)
+            calls[-1] = 'sequence_to_annotation(s)'
+            an = sfm.sequence_to_annotation(st)
+            if annot.dump(an) != ref['dump'] or an.serialize() != ref['text']:
+                return bad('sequence_to_annotation', annot.dump(an), ref['dump'])
+            mutate_everything(an)
+            calls[-1] = 'sequence_to_annotation(s) [returned object mutated]; sequence_to_annotation(s)'
+            if annot.dump(sfm.sequence_to_annotation(st)) != ref['dump']:
+                return bad('sequence_to_annotation after mutating the object it returned',
+                           annot.dump(sfm.sequence_to_annotation(st)), ref['dump'])
+            calls[-1] = 'add_mods(strip_mods(s), get_mods(s))'
+            rt = pt.add_mods(pt.strip_mods(st), pt.get_mods(st))
+            if rt != ref['text']:
+                return bad('round trip', rt, ref['text'])
+            calls[-1] = 'add_mods(*pop_mods(s))'
+            rt = pt.add_mods(*pt.pop_mods(st))
+            if rt != ref['text']:
+                return bad('pop/add round trip', rt, ref['text'])
+            calls.pop()
+            return None
+
+        e = queries()
+        if e:
+            return e
+        for step in range(r.randint(3, 6)):
+            kind = r.choice(['add', 'add', 'add', 'condense', 'reverse', 'split', 'shift', 'strip', 'count'])
+            if kind == 'add':
+                d = _copy.deepcopy(r.choice(EXTRA))
+                d = {(k % n if isinstance(k, int) else k): v for k, v in d.items()}
+                if 'intervals' in d and n < 2:
+                    continue
+                app, plus = r.random() < 0.6, r.random() < 0.3
+                want = expected_add(st, d, app, plus)
+                calls.append(f'add_mods(s, {d!r}, append={app}, include_plus={plus})')
+                for rep in range(2):        # the same mutating call twice must give the same answer twice
+                    got = pt.add_mods(st, _copy.deepcopy(d), append=app, include_plus=plus)
+                    if got != want:
+                        return bad('add_mods' + (' (second time)' if rep else ''), got, want)
+            elif kind == 'condense' and ref['condensed'] is not None:
+                calls.append('condense_static_mods(s)')
+                if pt.condense_static_mods(st) != ref['condensed']:
+                    return bad('condense_static_mods', pt.condense_static_mods(st), ref['condensed'])
+            elif kind == 'reverse':
+                calls.append('reverse(s)')
+                if pt.reverse(st) != ref['reversed']:
+                    return bad('reverse', pt.reverse(st), ref['reversed'])
+            elif kind == 'split':
+                calls.append('split(s)')
+                if pt.split(st) != ref['split']:
+                    return bad('split', pt.split(st), ref['split'])
+            elif kind == 'shift':
+                calls.append('shift(s, 1)')
+                pt.shift(st, 1)
+            elif kind == 'strip':
+                calls.append('strip_mods(s)')
+                pt.strip_mods(st)
+            else:
+                calls.append('count_residues(s)')
+                pt.count_residues(st)
+            e = queries()
+            if e:
+                return e
+        return None
+
+    seq_texts = [t for t in dict.fromkeys(texts) if t and _parses_single(pp, t)]
+    seq_cases = [(t, rng.randint(0, 10 ** 9)) for t in (seq_texts if tier != 'quick' else seq_texts[:140])]
+    chk.oracle('string_call_sequences', seq_cases, o_sequence, nontrivial_fn=lambda c: '[' in c[0] or '{' in c[0] or '<' in c[0],
+               key_fn=lambda c: c[0])
+
+    # a sample against a fresh interpreter (nothing was ever called there before)
+    sample = [c[0] for c in seq_cases[:: max(1, len(seq_cases) // 40)]]
+    fresh = _fresh_answers(sample)
+
+    def o_fresh(i):
+        st = sample[i]
+        here = [pt.strip_mods(st), show_dict(pt.get_mods(st)), pt.add_mods(pt.strip_mods(st), pt.get_mods(st)),
+                annot.dump(sfm.sequence_to_annotation(st))]
+        if fresh is None:
+            return None
+        if here != fresh[i]:
+            return f'after the call sequences of this run the answers for {st!r} are {here}, a fresh interpreter gives {fresh[i]}'
+        return None
+    if fresh is not None:
+        chk.oracle('end_of_run_vs_fresh_interpreter', list(range(len(sample))), o_fresh, key_fn=lambda i: sample[i])
+    else:
+        chk.notes.append('fresh-interpreter reference could not be computed')
 
     reach.__exit__()
     rep = reach.report()
